@@ -8,6 +8,8 @@
 //!   `STAGE` core|mono|lift|anf programs for `Sem` and for the closedness oracle
 //! Modes: `gv c07` (all streams), `gv c07 file <f.gom>` (one file, human readable),
 //! `gv c07 one <f.gom>` (one file, used by the watchdog: prints `DONE` when mono returned).
+//! `gv c07 inst [tag]` / `gv c07 req [tag]` list the instantiation-pair / request-route catalogues (one line per
+//! program: outcome and what the model-free oracles found; the program text of `tag`).
 use crate::c01;
 use crate::dump;
 use crate::sexp::{S, a, esc_line, l, tagged};
